@@ -278,7 +278,19 @@ pub fn hostile(r: &mut Rng) -> String {
         (0..n).map(|_| (b'0' + r.below(10) as u8) as char).collect()
     };
     let nz = |r: &mut Rng| (b'1' + r.below(9) as u8) as char;
-    match r.below(24) {
+    match r.below(26) {
+        24 | 25 => {
+            // exponents of four and more digits that the significand's padding zeros compensate
+            // (the scanned exponent is not the net exponent)
+            let k = *r.pick(&[330usize, 999, 1000, 1001, 1740, 2047, 2048, 2049, 2500, 4000, 9999, 10000]);
+            let d = 1 + r.below(9);
+            match r.below(4) {
+                0 => format!("0.{}{}e{}", "0".repeat(k - 1), d, k),
+                1 => format!("{}{}e-{}", d, "0".repeat(k), k),
+                2 => format!("0.{}{}E+{}", "0".repeat(k), d, k + r.below(3) as usize),
+                _ => format!("{}{}.5e-{}", d, "0".repeat(k), k + r.below(3) as usize),
+            }
+        }
         22 | 23 => overflow_boundary(r),
         0 => format!("{}{}", nz(r), digits(r, 0, 800)),
         1 => format!("0.{}{}", "0".repeat(r.range(0, 400)), digits(r, 1, 30)),
